@@ -39,10 +39,25 @@ def cases(tier, seed):
         if mode == "cart" and cell == "rotated":
             mode = "fract"
         out.append({"s": int(rng.integers(1 << 30)), "cell": cell, "mode": mode, "where": ["inside", "outside", "boundary"][(j // 9) % 3]})
+    # more than 9999 atoms of one element: atom labels get a fifth digit
+    for j in range(1 if tier == "quick" else 6):
+        out.append({"s": int(rng.integers(1 << 30)), "cell": "ortho", "mode": ["fract", "cart"][j % 2], "where": "inside", "many_atoms": 10060 + 40 * j})
     return out
 
 
 def build(rng, case):
+    if case.get("many_atoms"):
+        from mofun import Atoms
+        n = case["many_atoms"]
+        cellm = np.diag(rng.uniform(60.0, 80.0, 3))
+        els = ["Zn"] * n
+        for i in rng.choice(n, size=20, replace=False):
+            els[int(i)] = "O"
+        top = [int(x) for x in range(n - 12, n)]
+        return Atoms(elements=els, positions=rng.uniform(0.01, 0.99, (n, 3)).dot(cellm), cell=cellm, charges=np.round(rng.uniform(-1, 1, n), 3),
+                     bonds=[(top[0], top[1]), (999, top[2]), (top[3], 1000), (5, 6), (top[10], top[11])], bond_types=[0] * 5,
+                     angles=[(top[4], top[5], top[6]), (1, top[7], 2)], angle_types=[0, 0],
+                     dihedrals=[(top[8], top[9], top[10], top[11])], dihedral_types=[0])
     n = int(rng.integers(1, 13))
     if case["cell"] == "tiny_tilt":
         # almost orthorhombic: angles 1e-5 .. 5e-3 degrees away from 90 (a printed angle of 90.0000 must mean 90 +- 5e-5)
@@ -274,6 +289,15 @@ def run_case(case, ctx):
         return
     compare_loaded(b, a, mode, fail)
     st.count("files_read_back")
+    if case.get("many_atoms"):
+        # only the round trip itself for the big structure (the second readers and reading variants are quadratic in the atom count)
+        t2 = save(b, mode)
+        if t2.split() != t1.split() and mode == "fract":
+            diff = [(x, y) for x, y in zip(t1.split("\n"), t2.split("\n")) if x.split() != y.split()][:2]
+            fail("second write differs from the first: %s" % diff, "rewrite")
+        st.count("structures_with_more_than_9999_atoms_of_one_element")
+        ctx.nontrivial(case["s"])
+        return
     t2 = save(b, mode)
     d1, d2 = cifcmp.parse(t1), cifcmp.parse(t2)
     for msg in cifcmp.compare(d1, d2)[:3]:
@@ -424,6 +448,8 @@ def requirements(stats, tier):
         need.append("only %d of 18 (cell x mode x placement) classes observed" % stats.nseen("class"))
     if stats.get("second_writes_after_edit") < (60 if tier == "quick" else 20000):
         need.append("second writes of an edited object to an already used path: %d" % stats.get("second_writes_after_edit"))
+    if stats.get("structures_with_more_than_9999_atoms_of_one_element") < 1:
+        need.append("no structure with more than 9999 atoms of one element")
     if stats.nseen("explicit_filetype_on_path") < 4:
         need.append("paths whose extension is not .cif, with filetype='cif': %s" % sorted(stats.sets.get("explicit_filetype_on_path", [])))
     if stats.nseen("extra_columns") < 4:
